@@ -6,7 +6,18 @@ import NmVerif.Lemmas.Rearrange
 import NmVerif.Lemmas.RearrangePerm
 /-
   C03 — Rearranging views (reshape, transpose, moveaxis, ...) equal NumPy's result.
-  Only property statements (+ non-vacuity examples, counterexamples of known findings) live here.
+  Only property statements (+ non-vacuity examples, counterexamples of known findings) live here;
+  MODEL: NmVerif/Index/{Transpose,Reshape,Flip,NormalizeAxis}.lean, helper lemmas: NmVerif/Lemmas/Rearrange{,Perm}.lean.
+
+  How the statements are phrased.  A view is an `IxView` (source shape, result shape, destination index ↦ source index).
+  "Equals NumPy" is stated by NumPy's own defining equations, never through totalised accessors:
+    transpose family   shape[k] = src[p[k]]  and the element at `d` is read from `i` with  i[p[k]] = d[k]
+    reshape family     result shape as NumPy computes it, and `flat (view a) = flat a` (element k ↦ element k, C order)
+    flip               i[k] = n_k - 1 - d[k] on the listed axes, i[k] = d[k] elsewhere
+  Axis arguments are `Int`s; `normalizeAxis(es) … = some p` in a hypothesis is NumPy's `normalize_axis_index/tuple`
+  (see `normalizeAxis_spec`).  Hypotheses are the property's guards: positive extents, valid (duplicate-free,
+  in-range) axes, equal element count.  The two places where the unchanged code breaks the property
+  (results of rank 0; negative flip axes) are excluded by an explicit hypothesis and have `…_counterexample` theorems.
 -/
 namespace NmVerif.Props.C03
 open NmVerif
@@ -480,5 +491,31 @@ example : normalizeAxes ([2,3,4,5] : Shape).length [0,-1] = some [0,3] ∧
     normalizeAxes ([2,3,4,5] : Shape).length [-2,0] = some [2,0] ∧ [0,3].Nodup ∧ [2,0].Nodup := by decide
 example : moveaxisToTranspose 4 [0,-1] [-2,0] = some [3,1,0,2] ∧
     (moveaxisView [2,3,4,5] [0,-1] [-2,0]).map (·.dst) = some [5,3,2,4] := by decide
+
+/-- `normalize_axis` = NumPy's `normalize_axis_index`: accepted iff `-ndim ≤ a < ndim`, and then `a mod ndim` -/
+theorem normalizeAxis_spec (ndim : Nat) (a : Int) (k : Nat) :
+    normalizeAxis ndim a = some k ↔ (-(ndim : Int) ≤ a ∧ a < (ndim : Int) ∧ (k : Int) = a % (ndim : Int)) := by
+  unfold normalizeAxis
+  by_cases h : -(ndim : Int) ≤ a ∧ a < (ndim : Int)
+  · simp only [h, and_self, if_true, Option.some.injEq, true_and]
+    by_cases h0 : a < 0
+    · simp only [h0, if_true]
+      have : a % (ndim : Int) = a + ndim := by
+        rw [Int.emod_eq_add_self_emod, Int.emod_eq_of_lt (by omega) (by omega)]
+      rw [this]; omega
+    · simp only [h0, if_false]
+      have : a % (ndim : Int) = a := Int.emod_eq_of_lt (by omega) (by omega)
+      rw [this]; omega
+  · simp only [h, if_false]
+    constructor
+    · intro h'; cases h'
+    · rintro ⟨h1, h2, _⟩; exact absurd ⟨h1, h2⟩ h
+
+/-! non-vacuity (reshape family) -/
+example : shapeReshape [2,3,4] [4,-1,2] = some [4,3,2] ∧ (4 * 2 ∣ prod [2,3,4]) := by decide
+example : (reshapeView [2,3] [3,-1]).map (fun v => (v.dst, v.provenance)) = some ([3,2], [0,1,2,3,4,5]) := by decide
+example : Pos [1,3,1,2] ∧ (∃ e ∈ [1,3,1,2], e ≠ 1) ∧ (squeezeView [1,3,1,2]).map (·.dst) = some [3,2] := by decide
+example : (atleastNdView [3] 3).map (·.dst) = some [1,1,3] ∧ (atleastNdView [] 1).map (·.dst) = some [1] := by decide
+example : (flattenView [2,3]).map (·.dst) = some [6] := by decide
 
 end NmVerif.Props.C03
